@@ -289,6 +289,7 @@ func judgeCall(model *CfgModel, recv MT, method string, args []MT, isStatic bool
 		}
 		declared++
 		classOK := false
+		earlierMayBeChosen := false // an earlier declaration that accepts SOME class of every argument
 		for _, d := range decls {
 			hasBlock := len(d.BlockParams) > 0
 			// keywords: every passed key is declared and every required key is passed,
@@ -372,11 +373,16 @@ func judgeCall(model *CfgModel, recv MT, method string, args []MT, isStatic bool
 			if !typesNone {
 				anyTypeAdmits = true
 			}
+			if !typesOK && !typesNone {
+				earlierMayBeChosen = true
+			}
 			if typesOK {
 				classOK = true
-				// return type of the first admitting declaration
+				// return type of the first admitting declaration; when an earlier
+				// one accepts part of a union argument the documentation does not
+				// say which of the two answers
 				r, kind, rg := resolveReturn(d, cl, recv, args)
-				if rg || d.Conditional {
+				if rg || d.Conditional || earlierMayBeChosen {
 					retGrey = true
 				}
 				retKind = kind
